@@ -95,6 +95,9 @@ func leanLayout(c Case, impl string) (string, bool) {
 var gapFillers = []struct{ name, text string }{
 	{"space", " "}, {"newline", "\n"}, {"tabs", "\t\t"}, {"linecomment", " -- c\n"},
 	{"blockcomment", "--(c)--"}, {"blockcomment-blanks", " --(c)-- "},
+	// comment texts made of the terminator's own characters: every proper prefix of `)--` directly before the real one
+	{"blockcomment-tail-paren-dash", "--(c)-)--"}, {"blockcomment-tail-paren", "--(c))--"}, {"blockcomment-only-paren-dash", "--()-)--"},
+	{"blockcomment-dashes", "--(--)--"}, {"blockcomment-tail-parens-dash", "--( x))-)--"}, {"blockcomment-opener-inside", "--(--(c)--"},
 	// every other character the lexer's whitespace test (unicode.IsSpace) accepts: the remaining ASCII controls and the
 	// Unicode White_Space characters, Latin-1 ones (U+0085, U+00A0) included
 	{"cr-vt-ff", "\r\v\f"}, {"crlf", "\r\n"}, {"nel-nbsp", "\u0085\u00a0"}, {"ogham-enquad", "\u1680\u2000\u2003\u200a"},
